@@ -373,7 +373,8 @@ func runC17(c c17Case) (out ev.Outcome) {
 		if P.Equals(negP) || negP.Equals(P) {
 			return fail("equals", "a point equals its negative")
 		}
-		if P.Equals(crypto.NewECPointNoCurveCheck(cv.EC, P.X(), Q.Y())) || P.Equals(crypto.NewECPointNoCurveCheck(cv.EC, Q.X(), P.Y())) {
+		if a.Cmp(b) != 0 && P.X().Cmp(Q.X()) != 0 && P.Y().Cmp(Q.Y()) != 0 &&
+			(P.Equals(crypto.NewECPointNoCurveCheck(cv.EC, P.X(), Q.Y())) || P.Equals(crypto.NewECPointNoCurveCheck(cv.EC, Q.X(), P.Y()))) {
 			return fail("equals", "a point equals a pair that shares only one coordinate with it")
 		}
 		if a.Cmp(b) != 0 && (P.Equals(Q) || Q.Equals(P)) {
